@@ -450,7 +450,7 @@ pub fn execute(h: &History, want: &str, rep: &mut Report) -> Option<Violation> {
                         if rf.overflowed && !observed_gate_mode {
                             // a 33rd outstanding note-on: outside the stated range of C04 (and of the list-based reference)
                             rep.count("midi.reference_list_left_at_33rd_note_on", 1);
-                            if want != "C05" {
+                            if want != "C05" && want != "C17" {
                                 break;
                             }
                             // C05 is stated in terms of gate() itself and has no such limit: from here on the edge
@@ -694,6 +694,124 @@ pub fn gen_notes_x(r: &mut Rng, n_msgs: usize, poll_rate: f64, strict_polls: boo
     History { channel_arg, ops: e.ops }
 }
 
+/// a key held down while a long melody is played over it (C04): the held key must survive any number of
+/// later note-ons; (C05) with `burst` the melody runs without any edge poll, polls come only at the end
+pub fn gen_drone_melody(r: &mut Rng, n_melody: usize, polls: bool) -> History {
+    let channel_arg = r.below(16) as u8;
+    let ch = channel_arg;
+    let mut e = Emit::new();
+    e.ops.push(Op::Priority(r.below(3) as u8));
+    e.ops.push(Op::Retrigger(r.chance(0.5)));
+    let n_drones = 1 + r.below(3) as u8;
+    let drone_base = 20 + r.below(80) as u8;
+    for d in 0..n_drones {
+        e.msg(0x90 | ch, &[drone_base + d, 1 + r.below(127) as u8], false);
+    }
+    if polls {
+        e.ops.push(Op::PollRising);
+        e.ops.push(Op::PollFalling);
+    }
+    let legato = r.chance(0.5);
+    let mut prev: Option<u8> = None;
+    for k in 0..n_melody {
+        let note = (drone_base as usize + 5 + (k * 7 + r.usize_below(5)) % 40) as u8 & 0x7F;
+        let run = r.chance(0.5);
+        if legato {
+            e.msg(0x90 | ch, &[note, 1 + r.below(127) as u8], run);
+            if let Some(p) = prev {
+                if r.chance(0.5) {
+                    e.msg(0x80 | ch, &[p, 0], run);
+                } else {
+                    e.msg(0x90 | ch, &[p, 0], run);
+                }
+            }
+            prev = Some(note);
+        } else {
+            e.msg(0x90 | ch, &[note, 1 + r.below(127) as u8], run);
+            e.msg(0x80 | ch, &[note, 64], run);
+        }
+        if k % 97 == 0 && r.chance(0.3) {
+            e.ops.push(Op::Priority(r.below(3) as u8));
+        }
+    }
+    if polls {
+        e.ops.push(Op::PollRising);
+        e.ops.push(Op::PollFalling);
+        e.ops.push(Op::PollRising);
+    }
+    // release everything: the drones last
+    if let Some(p) = prev {
+        e.msg(0x80 | ch, &[p, 0], false);
+    }
+    for d in 0..n_drones {
+        e.msg(0x80 | ch, &[drone_base + d, 0], false);
+        if polls {
+            e.ops.push(Op::PollFalling);
+        }
+    }
+    if polls {
+        e.ops.push(Op::PollRising);
+        e.ops.push(Op::PollFalling);
+    }
+    History { channel_arg, ops: e.ops }
+}
+
+/// the held-note buffer filled to (and past) its 32 entries with distinct keys, then re-strikes of the newest /
+/// oldest / a middle key, further keys and releases in several orders (C04 up to the 32nd, C05 and C17 beyond)
+pub fn gen_full_buffer(r: &mut Rng, polls: bool) -> History {
+    let channel_arg = r.below(16) as u8;
+    let ch = channel_arg;
+    let mut e = Emit::new();
+    e.ops.push(Op::Priority(r.below(3) as u8));
+    e.ops.push(Op::Retrigger(r.chance(0.5)));
+    let n = *r.pick(&[30usize, 31, 32, 32, 32, 33, 34, 40]);
+    let base = r.below(60) as u8;
+    let same_key = r.chance(0.2);
+    let mut keys: Vec<u8> = Vec::new();
+    for k in 0..n {
+        let key = if same_key { base } else { base + k as u8 };
+        keys.push(key);
+        e.msg(0x90 | ch, &[key, 1 + r.below(127) as u8], r.chance(0.5));
+        if polls && r.chance(0.1) {
+            e.ops.push(Op::PollRising);
+        }
+    }
+    for _ in 0..(2 + r.below(6)) {
+        let key = match r.below(5) {
+            0 => *keys.last().unwrap(),
+            1 => keys[0],
+            2 => keys[keys.len() / 2],
+            3 => base + 100,
+            _ => *r.pick(&keys),
+        };
+        if r.chance(0.7) {
+            e.msg(0x90 | ch, &[key, 1 + r.below(127) as u8], r.chance(0.5));
+        } else {
+            e.msg(0x80 | ch, &[key, 0], r.chance(0.5));
+        }
+        if polls {
+            e.ops.push(Op::PollRising);
+            e.ops.push(Op::PollFalling);
+        }
+    }
+    // release in a random order
+    let mut order = keys.clone();
+    for i in (1..order.len()).rev() {
+        order.swap(i, r.usize_below(i + 1));
+    }
+    for key in order {
+        e.msg(0x80 | ch, &[key, 0], r.chance(0.5));
+        if polls && r.chance(0.2) {
+            e.ops.push(Op::PollFalling);
+        }
+    }
+    if polls {
+        e.ops.push(Op::PollRising);
+        e.ops.push(Op::PollFalling);
+    }
+    History { channel_arg, ops: e.ops }
+}
+
 const RT: [u8; 8] = [0xF8, 0xF9, 0xFA, 0xFB, 0xFC, 0xFD, 0xFE, 0xFF];
 
 /// unstructured bytes (C06): uniform / status-heavy / data-heavy, on a small note pool so that
@@ -720,7 +838,7 @@ pub fn gen_bytes(r: &mut Rng, n: usize) -> History {
                     0 => *r.pick(&[0x80u8, 0x90, 0xB0, 0xE0, 0xA0, 0xC0, 0xD0]) | ch,
                     1 => *r.pick(&RT),
                     2 => 0,
-                    _ => *r.pick(&[0u8, 1, 5, 7, 60, 61, 64, 65, 71, 74, 121, 123, 127, 63]),
+                    _ => *r.pick(&[0u8, 1, 5, 7, 60, 61, 64, 65, 71, 74, 120, 121, 122, 123, 124, 125, 126, 127, 63]),
                 }
             }
             _ => {
@@ -729,7 +847,7 @@ pub fn gen_bytes(r: &mut Rng, n: usize) -> History {
                     0 | 1 => (0x80 | (r.below(7) as u8) << 4) | if r.chance(0.8) { ch } else { r.below(16) as u8 },
                     2 => 0xF0 | r.below(16) as u8,
                     3 => 0,
-                    _ => *r.pick(&[0u8, 1, 2, 5, 7, 60, 62, 64, 65, 71, 74, 100, 121, 123, 127]),
+                    _ => *r.pick(&[0u8, 1, 2, 5, 7, 60, 62, 64, 65, 71, 74, 100, 120, 121, 122, 123, 124, 125, 126, 127]),
                 }
             }
         };
@@ -760,6 +878,14 @@ fn catalogue(ch: u8) -> Vec<Vec<u8>> {
         vec![0x90 | ch, 60, 0x80 | ch, 60, 0x90 | ch, 61, 100, 62, 0xB0 | ch, 1, 0xE0 | ch, 5, 0x90 | ch, 65, 100],
         vec![60, 100, 61, 100, 0x90 | ch, 60, 100],
         vec![0xB0 | ch, 7, 100, 0x90 | ch, 60, 100, 0xB0 | ch, 121, 0, 123, 0, 0x90 | ch, 1, 1],
+        // universal system exclusive messages (master volume / balance / fine tuning, GM on, device inquiry, MTC full frame)
+        vec![0xB0 | ch, 7, 10, 0xF0, 0x7F, 0x7F, 0x04, 0x01, 0x7F, 0x7F, 0xF7, 0xF0, 0x7F, ch, 0x04, 0x01, 0x00, 0x40, 0xF7],
+        vec![0xF0, 0x7F, 0x7F, 0x04, 0x02, 0x00, 0x7F, 0xF7, 0xF0, 0x7F, 0x7F, 0x04, 0x03, 0x00, 0x00, 0xF7, 0xF0, 0x7E, 0x7F, 0x09, 0x01, 0xF7, 0xF0, 0x7E, ch, 0x06, 0x01, 0xF7],
+        vec![0xF0, 0x7F, 0x7F, 0x01, 0x01, 0x21, 0x3B, 0x3B, 0x1D, 0xF7, 0xF0, 0x7F, 0x7F, 0x04, 0x01, 0x11, 0x22, 0x90 | ch, 60, 100],
+        // channel mode messages on the listened channel, then traffic on other channels that must still be ignored
+        vec![0xB0 | ch, 125, 0, 0x90 | o, 60, 100, 0xB0 | o, 7, 99, 1, 98, 0xE0 | o, 1, 2, 0xB0 | ch, 124, 0, 0x90 | o, 61, 100],
+        vec![0xB0 | ch, 126, 1, 0x90 | o, 62, 100, 0xB0 | ch, 127, 0, 0x90 | o, 63, 100, 0xB0 | ch, 122, 0, 120, 0, 0xB0 | o, 64, 0, 65, 0, 0x80 | o, 62, 0],
+        vec![0xB0 | ch, 126, 0, 127, 0, 125, 0, 0xB0 | (ch + 1) % 16, 1, 127, 0x90 | (ch + 15) % 16, 70, 70, 0xE0 | (ch + 8) % 16, 0, 0],
     ]
 }
 
@@ -801,6 +927,14 @@ pub fn gen_controller_table(ch: u8, foreign: bool, running: bool) -> History {
         }
         for v in 0..128u8 {
             e.msg(0xB0 | tx, &[cc, v], running);
+        }
+        if !foreign {
+            // whatever this controller number did, it must not have made the receiver listen to other channels
+            let o = (ch + 1 + cc % 15) % 16;
+            e.msg(0x90 | o, &[cc, 100], false);
+            e.msg(0xB0 | o, &[1, 99], false);
+            e.msg(0xE0 | o, &[3, 4], false);
+            e.msg(0x80 | o, &[cc, 0], false);
         }
     }
     History { channel_arg: ch, ops: e.ops }
@@ -972,11 +1106,25 @@ pub fn run(ctx: &Ctx, prop: &str) -> Report {
                     let rate = if prop == "C05" { *r.pick(&[0.05, 0.2, 0.5, 0.9]) } else { 0.05 };
                     let h = gen_notes_x(&mut r, n, rate, strict, prop == "C05" && j % 4 == 1);
                     run_and_record(&h, prop, &mut rep, s == 0 && j < 3);
+                    if j % 8 == 3 {
+                        let h = gen_full_buffer(&mut r, prop == "C05");
+                        run_and_record(&h, prop, &mut rep, false);
+                        rep.count("midi.full_buffer_histories", 1);
+                    }
+                    if j % 16 == 5 {
+                        // a held key under a long melody; for C05 the melody runs without a single edge poll
+                        let len = *r.pick(&[40usize, 254, 255, 256, 257, 300, 511, 512, 513, 700]);
+                        let h = gen_drone_melody(&mut r, if small { 40 } else { len }, prop == "C05");
+                        run_and_record(&h, prop, &mut rep, false);
+                        rep.count("midi.drone_melody_histories", 1);
+                    }
                 }
                 rep
             });
             stage("midi.note_traffic", r, &mut rep, t);
             if !small {
+                rep.floor("midi.drone_melody_histories", 50);
+                rep.floor("midi.full_buffer_histories", 100);
                 for e in ["NoteOnRaises", "NoteOnLegato", "NoteOffLast", "NoteOffSome", "NoteOffStrayGateLow", "NoteOffStrayGateHigh", "AllOffGateHigh", "AllOffGateLow"] {
                     rep.floor(&format!("midi.effect.{}", e), 200);
                 }
